@@ -10,6 +10,7 @@ let show_frame f = Printf.sprintf "%c%d.%x.%d.%s.%s.%s" (match f.w with Cl -> 'c
 let model_trace line =
   try
     let started = ref false in
+    let nrst = ref 0 in
     let evs = List.map (fun tok ->
       let a = Array.of_list (String.split_on_char ':' tok) in
       let ev = match a.(0) with
@@ -23,6 +24,9 @@ let model_trace line =
                  EvHeaders (n_of_int (int_of_string a.(1)), z_of_string (String.sub a.(4) 2 (String.length a.(4) - 2)))
         | "W" -> EvWU (n_of_int (int_of_string a.(1)), z_of_string a.(2))
         | "G" -> EvPing
+        | "R" -> if Array.length a <> 3 then raise Oracle;
+                 incr nrst; if !nrst > 15 then raise Oracle;      (* the rapid-reset guard (GOAWAY after 17 quick resets) is outside the model *)
+                 EvRst (n_of_int (int_of_string a.(1)))
         | _ -> raise Oracle in
       if not !started then raise Oracle; ev) (split_ws line) in
     match trace h2_init evs with
